@@ -76,7 +76,7 @@ class SerialRunner(Runner):
     def remove_results(self, tasks: Sequence[Task]) -> None:
         for task in tasks:
             if task not in self.results_map:
-                return
+                continue
             logger.debug(f"Removing result from in-memory cache for task: '{task}'")
             del self.results_map[task]
 
